@@ -491,6 +491,10 @@ func TestC16(t *testing.T) {
 	evals += mc
 	nontrivial += mn
 	r.Set("multi_record_write_scripts", mc)
+	gc, gn := grpcWriteRetries(r)
+	evals += gc
+	nontrivial += gn
+	r.Set("grpc_write_retry_scripts", gc)
 	r.Sample(map[string]any{"kind": "multi-record-write", "write_len": 65575, "timeouts_at_wire_offsets": []int{65569 + 18 + 20}})
 
 	r.Set("evaluations", evals)
